@@ -327,3 +327,48 @@ Lemma ctor_covered m given : covered m given -> exists vals, ctor m given = Ok (
 Proof.
   intros H. destruct (collect_total _ _ _ H) as (vals & E & Em). exists vals. unfold ctor. now rewrite E.
 Qed.
+
+(* ---- several distinct Unions in one annotation: the positions are independent ---------------------------------------- *)
+Lemma load_slots_roundtrip (mk : (list arg * pos) -> jv -> res) c built (ok : (list arg * pos) -> lv -> Prop) :
+  (forall u v, ok u v -> mk u (dump_lv c built v) = Ok v) ->
+  forall us vs, Forall2 ok us vs ->
+  load_slots (map mk us) (map (dump_lv c built) vs) = Ok (LTuple vs).
+Proof.
+  intros H us vs F. induction F as [|u v us vs Huv _ IH]; cbn [map load_slots]; [reflexivity|].
+  now rewrite (H u v Huv), IH.
+Qed.
+
+Definition slot_ok_v1 c built (u : list arg * pos) (v : lv) : Prop :=
+  tags_injective c (fst u) /\ names_injective c (fst u) /\ shaped c built (leaf_v1 c built (fst u)) (snd u) v.
+Definition slot_ok_v0 c pre built (u : list arg * pos) (v : lv) : Prop :=
+  tags_injective c (fst u) /\ shaped c built (leaf_v0 c pre built (fst u)) (snd u) v.
+
+Lemma multi_dispatch_v1 coerce c built us vs :
+  Forall2 (slot_ok_v1 c built) us vs ->
+  load_slots (map (slot_loader_v1 coerce c) us) (map (dump_lv c built) vs) = Ok (LTuple vs).
+Proof.
+  apply load_slots_roundtrip. intros u v (Inj & NInj & Sh). now apply dispatch_v1.
+Qed.
+
+Lemma multi_dispatch_v0 c pre built us vs :
+  Forall2 (slot_ok_v0 c pre built) us vs ->
+  load_slots (map (slot_loader_v0 c pre) us) (map (dump_lv c built) vs) = Ok (LTuple vs).
+Proof.
+  apply load_slots_roundtrip. intros u v (Inj & Sh). now apply dispatch_v0.
+Qed.
+
+(* an unknown tag at slot i is judged against union i's tag table only *)
+Lemma load_slots_err fs docs i f d e :
+  nth_error fs i = Some f -> nth_error docs i = Some d -> List.length fs = List.length docs ->
+  f d = Err e ->
+  (forall j g x, j < i -> nth_error fs j = Some g -> nth_error docs j = Some x -> exists v, g x = Ok v) ->
+  load_slots fs docs = Err e.
+Proof.
+  revert docs i. induction fs as [|g fr IH]; intros docs i Hf Hd Hl He Hprev; [destruct i; discriminate Hf|].
+  destruct docs as [|x dr]; [destruct i; discriminate Hd|]. cbn [load_slots].
+  destruct i as [|i].
+  - cbn in Hf, Hd. injection Hf as ->. injection Hd as ->. now rewrite He.
+  - destruct (Hprev 0 g x (PeanoNat.Nat.lt_0_succ i) eq_refl eq_refl) as [v Hv]. rewrite Hv.
+    rewrite (IH dr i Hf Hd); [reflexivity|now injection Hl|exact He|].
+    intros j g' x' Hj Hg Hx. apply (Hprev (Datatypes.S j) g' x'); [now apply (proj1 (PeanoNat.Nat.succ_lt_mono j i))|exact Hg|exact Hx].
+Qed.
